@@ -74,8 +74,8 @@ class Built:
         if self.style.get("picklable"):
             from . import picklelib as P
 
-            return {"body": getattr(P, "var_" + name, None), "apply": P.apply_g, "callback": P.cb,
-                    "effect": P.e1}[kind]
+            return {"body": getattr(P, "var_" + name, None), "apply": P.apply_g,
+                    "callback": P.cb_none if name == "none" else P.cb, "effect": P.e1}[kind]
         log = self.log
         me = self
 
@@ -151,7 +151,15 @@ class Built:
             return L.Template(tokens_to_str(nd["s"]), **{p["name"]: O[p["n"]] for p in nd["ps"]})
         if k == "apply":
             f = self.fn("apply", nd["f"], i)
-            if nd.get("fp"):
+            if nd.get("fp") and self.style.get("picklable"):
+                from . import picklelib as P
+                from labrea.application import PartialApplication
+                from labrea.pipeline import PipelineStep
+
+                # the importable two-argument step, its parameter produced by another node (what the
+                # pipeline_step decorator builds from a signature default)
+                f = PipelineStep(PartialApplication.lift(P.step_g, p=O[nd["fp"]]), "step_g")
+            elif nd.get("fp"):
                 # a decorated pipeline step whose parameter is produced by another node
                 def stepfn(x, p=O[nd["fp"]], _f=f):
                     return _f(x, p)
